@@ -1,7 +1,9 @@
 (* C16 — property theorems.  Statements only: each is closed by [exact] of a lemma proved in
    coq/C16/RegionAlgProofs.v, followed by Print Assumptions. *)
-From Coq Require Import QArith Qabs List Bool ZArith NArith.
-From Scenic Require Import C16.RegionAlg C16.RegionAlgProofs.
+From Coq Require Import QArith Qabs List Bool ZArith NArith Lqa.
+From Scenic Require Import C16.RegionAlg C16.RegionAlgProofs C16.Project C16.ProjectProofs.
+(* the evaluators of the generated correspondence cases belong to this property's build closure *)
+From Scenic Require C16.Cases.
 Import ListNotations.
 Open Scope Q_scope.
 
@@ -118,6 +120,51 @@ Theorem C16_dropped_flag_diverges : exists t s, forall fuel, out_of (run fuel t 
 Proof. exact dropped_flag_diverges. Qed.
 
 (* non-vacuity *)
+(* (4) projection along a direction (MeshRegion.projectVector): [ts] = signed parameters of the crossings of the line
+   p + t d with the region's surface.  The returned crossing is a crossing, and none in either direction is nearer;
+   None only when there is no crossing; the code before the repair (norm without axis) is refuted. *)
+Theorem C16_project_nearest : forall ts t, project ts = Some t ->
+  InQ t ts /\ ~ t == 0 /\ forall t', In t' ts -> ~ t' == 0 -> Qabs t <= Qabs t'.
+Proof. exact project_nearest. Qed.
+Theorem C16_project_none : forall ts, project ts = None -> forall t, In t ts -> t == 0.
+Proof. exact project_none. Qed.
+Theorem C16_project_some : forall ts t, In t ts -> ~ t == 0 -> project ts <> None.
+Proof. exact project_some. Qed.
+Theorem C16_project_old_refuted : exists ts t t', project_old ts = Some t /\ In t' ts /\ ~ t' == 0 /\ Qabs t' < Qabs t.
+Proof. exact project_old_refuted. Qed.
+Print Assumptions C16_project_nearest.
+Example C16_project_example :
+  project [(8 # 5); - (2 # 5); 3] = Some (- (2 # 5)) /\ project [- 1; - 4] = Some (- (1)) /\ project [] = None /\
+  project_vector true [2] = Some 0.
+Proof. vm_compute. repeat split. Qed.
+
+(* (5) reported bounding boxes vs region-in-region containment: if every member of the inner region is a member of the
+   outer one, a sound AABB of the outer region contains a tight AABB of the inner one; conversely one member of the
+   inner region outside the outer region's AABB refutes containment. *)
+Theorem C16_aabb_mono : forall (m1 m2 : Q -> Q -> Q -> Prop) b1 b2,
+  (forall x y z, m2 x y z -> m1 x y z) -> aabb_sound m1 b1 -> aabb_tight m2 b2 -> box_le b2 b1.
+Proof. exact aabb_mono. Qed.
+Theorem C16_aabb_refutes_containment : forall (m1 m2 : Q -> Q -> Q -> Prop) b1 x y z,
+  aabb_sound m1 b1 -> m2 x y z -> ~ in_box b1 x y z -> ~ (forall x y z, m2 x y z -> m1 x y z).
+Proof. exact aabb_refutes_containment. Qed.
+Theorem C16_box_le_in : forall b1 b2 x y z, box_le b1 b2 -> in_box b1 x y z -> in_box b2 x y z.
+Proof. exact box_le_in. Qed.
+Print Assumptions C16_aabb_mono.
+Example C16_aabb_example :
+  let m2 := fun x y z => 0 <= x <= 1 /\ 0 <= y <= 1 /\ z == 0 in
+  aabb_sound m2 (mkbox 0 1 0 1 0 0) /\ aabb_tight m2 (mkbox 0 1 0 1 0 0).
+Proof.
+  split.
+  - intros x y z (Hx & Hy & Hz). unfold in_box. simpl. repeat split; lra.
+  - unfold aabb_tight. simpl. repeat split.
+    + exists 0, 0, 0. repeat split; lra.
+    + exists 1, 0, 0. repeat split; lra.
+    + exists 0, 0, 0. repeat split; lra.
+    + exists 0, 1, 0. repeat split; lra.
+    + exists 0, 0, 0. repeat split; lra.
+    + exists 0, 0, 0. repeat split; lra.
+Qed.
+
 Example C16_examples :
   disc_member (mkpt 0 0 2) 1 (mkpt (1#2) 0 2) = true /\ disc_member (mkpt 0 0 2) 1 (mkpt (1#2) 0 0) = false /\
   disc_dist_sq (mkpt 0 0 4) 1 (mkpt 3 0 0) 3 == 20 /\
